@@ -1889,6 +1889,10 @@ class Exec:
                 if name == 'all':
                     return [(st, VBool(z3.And(*its) if its else z3.BoolVal(True)))]
                 return [(st, VBool(z3.Or(*its) if its else z3.BoolVal(False)))]
+            if name == 'chr':
+                return [(st, VStr(z=z3.Unit(self.as_int(A[0]))))]
+            if name == 'ord' and isinstance(A[0], VStr):
+                return [(st, VInt(self.strseq(A[0])[0]))]
             if name == 'abs':
                 a = self.as_int(A[0])
                 return [(st, VInt(z3.If(a >= 0, a, -a)))]
@@ -2489,6 +2493,15 @@ class Exec:
                     res = self.call_func(VFunc(fn, None, cls=c, self_val=o, mod=self.repo.classes[c].module), [v], {}, st, ctx)
                     return [(s, r if isinstance(r, Raise) else Next()) for s, r in res]
             return [(st, Raise('TypeError', n.lineno))]
+        # plain @property with a @<name>.setter
+        for c in self.repo.mro(o.cls):
+            ci = self.repo.classes.get(c)
+            if ci and (attr + '.setter') in ci.props:
+                fn = ci.props[attr + '.setter']
+                res = self.call_func(VFunc(fn, None, cls=c, self_val=o, mod=ci.module), [v], {}, st, ctx)
+                return [(s, r if isinstance(r, Raise) else Next()) for s, r in res]
+            if ci and attr in ci.props:
+                return [(st, Raise('AttributeError:' + attr, getattr(n, 'lineno', None)))]      # read-only property
         st.heap[(o.ref, attr)] = v
         return [(st, Next())]
 
